@@ -32,6 +32,8 @@ func RunC12(c *Ctx, r *Report) {
 	w.nestedDispatchRule(r, prefix+"nested-dispatch")
 	c.akaRules(r, prefix, "stability")
 	c.akaPaddingRule(r, prefix)
+	c.akaEmitsAllRule(r, prefix+"aka.emits-every-attribute")
+	c.encodeOwnHeaderRule(r, prefix+"encode-own-header")
 	c.akaOrderRule(r, prefix+"aka.order")
 }
 
@@ -69,6 +71,21 @@ func RunC14(c *Ctx, r *Report) {
 	r.Rule(prefix+"eap.r-equals-spec", "EAP records: decoder layout = RFC 3748 layout", 5)
 	we.specCompare(r, prefix+"eap.r-equals-spec", "decode", we.dec)
 	we.nestedDispatchRule(r, prefix+"eap.nested-dispatch")
+	c.akaEmitsAllRule(r, prefix+"aka.emits-every-attribute")
+	ruleA := prefix + "eap.values-copied"
+	r.Rule(ruleA, "every octet string an EAP decoder stores is a copy of the input octets, not a sub-slice of the input (a value read back later is the value decoded, whatever happens to the receive buffer)", 4)
+	for _, rec := range we.recs {
+		t := w.st.Dec[rec]
+		if t == nil {
+			continue
+		}
+		for _, sg := range t.Segs {
+			if sg.Field == "" || strings.HasPrefix(sg.Field, "call:") {
+				continue
+			}
+			r.Check(!sg.Alias, ruleA, rec+": "+sg.Field, sg.Pos, "copied (append / copy)", "the field is a sub-slice of the input buffer")
+		}
+	}
 	c.valueGuardRule(r, prefix+"value-guards")
 	// length slot and constants
 	ruleL := prefix + "eap.length-and-type"
@@ -398,4 +415,96 @@ func (c *Ctx) akaOrderRule(r *Report, ruleO string) {
 		}
 		r.Check(okS, ruleO, "(*eap.EapAkaPrime).Marshal iterates getAttrsKeys()", c.Pos(ma.Pos()), "attributes are emitted in ascending type order", "Marshal does not iterate the sorted key list")
 	}
+}
+
+// encodeOwnHeaderRule: IKEMessage.Encode serialises the message's own header object (the receiver's
+// IKEHeader field), not a header rebuilt from some of its fields: every field the header codec handles
+// (versions, all flag bits) then comes from the message.
+func (c *Ctx) encodeOwnHeaderRule(r *Report, rule string) {
+	r.Rule(rule, "IKEMessage.Encode calls IKEHeader.Marshal on the header stored in the message (m.IKEHeader)", 1)
+	enc := c.Method("message", "IKEMessage", "Encode")
+	hm := c.Method("message", "IKEHeader", "Marshal")
+	if enc == nil || hm == nil {
+		r.undecided(rule, "anchors", "-", "IKEMessage.Encode / IKEHeader.Marshal do not resolve")
+		return
+	}
+	calls := c.callsTo(enc, hm)
+	ok := len(calls) >= 1
+	detail := fmt.Sprintf("%d call(s) of IKEHeader.Marshal", len(calls))
+	for _, call := range calls {
+		base, fld, isF := fieldLoad(call.Call.Args[0])
+		if !isF || fld != "IKEHeader" || paramIndex(enc, base) != 0 {
+			ok = false
+			detail = "the header that is marshalled is not the message's IKEHeader field"
+		}
+	}
+	r.Check(ok, rule, "(*message.IKEMessage).Encode", c.Pos(enc.Pos()), "m.IKEHeader.Marshal()", detail)
+}
+
+// akaEmitsAllRule: the key list Marshal iterates is the key set of the attribute map: getAttrsKeys ranges
+// over the map and appends every key unconditionally (so an attribute the decoder kept - of any type - is
+// emitted again), and Marshal looks each key up in that same map.
+func (c *Ctx) akaEmitsAllRule(r *Report, rule string) {
+	r.Rule(rule, "getAttrsKeys collects every key of the attribute map (one range over the map, the append is not conditional), and Marshal emits the attribute of every collected key", 2)
+	gk := c.Method("eap", "EapAkaPrime", "getAttrsKeys")
+	ma := c.Method("eap", "EapAkaPrime", "Marshal")
+	if gk == nil || ma == nil {
+		r.undecided(rule, "anchors", "-", "getAttrsKeys / Marshal do not resolve")
+		return
+	}
+	nRange, okAll, why := 0, true, ""
+	for _, b := range gk.Blocks {
+		for _, ins := range b.Instrs {
+			rg, ok := ins.(*ssa.Range)
+			if !ok {
+				continue
+			}
+			if _, fld, isF := fieldLoad(rg.X); !isF || fld != "attributes" {
+				continue
+			}
+			nRange++
+			// the loop body: from the ok-edge of Next to the back edge, no further branching
+			var loop *loopInfo
+			for _, li := range naturalLoops(gk) {
+				for _, r2 := range *rg.Referrers() {
+					if n, ok := r2.(*ssa.Next); ok && li.body[n.Block()] {
+						loop = li
+					}
+				}
+			}
+			if loop == nil {
+				okAll, why = false, "cannot find the loop of the range"
+				continue
+			}
+			nIf, nAppend := 0, 0
+			for bb := range loop.body {
+				if _, isIf := bb.Instrs[len(bb.Instrs)-1].(*ssa.If); isIf {
+					nIf++
+				}
+				for _, i2 := range bb.Instrs {
+					if call, ok := i2.(*ssa.Call); ok {
+						if bi, ok := call.Call.Value.(*ssa.Builtin); ok && bi.Name() == "append" {
+							nAppend++
+						}
+					}
+				}
+			}
+			if nIf != 1 || nAppend != 1 {
+				okAll, why = false, fmt.Sprintf("the collecting loop has %d branches and %d appends (expected the loop test and one append)", nIf, nAppend)
+			}
+		}
+	}
+	r.Check(nRange == 1 && okAll, rule, "(*eap.EapAkaPrime).getAttrsKeys", c.Pos(gk.Pos()), "one range over eapAkaPrime.attributes, every key appended", fmt.Sprintf("%d range(s) over the attribute map; %s", nRange, why))
+	// Marshal: lookup in the same map by the iterated key
+	okL := false
+	for _, b := range ma.Blocks {
+		for _, ins := range b.Instrs {
+			if lk, ok := ins.(*ssa.Lookup); ok {
+				if _, fld, isF := fieldLoad(lk.X); isF && fld == "attributes" {
+					okL = true
+				}
+			}
+		}
+	}
+	r.Check(okL, rule, "(*eap.EapAkaPrime).Marshal looks the keys up in the attribute map", c.Pos(ma.Pos()), "attributes[key]", "Marshal does not read the attributes of the collected keys from the map")
 }
